@@ -2,12 +2,17 @@ import sys; sys.path.insert(0,'/verif')
 from sa import facts, mir, terms, guards
 crates,th,_=facts.load()
 P=mir.Program(crates)
-import sys
-key=sys.argv[1]
-f=P.fns[key]
-cx=terms.TermCx(P,f)
-for e,fact in guards.branch_facts(P,f,cx):
-    def ff(x):
-        return terms.fmt(x) if isinstance(x,tuple) else x
-    print(e, fact[0], [ff(x) for x in fact[1:]])
-print('ret', [(b,k) for b,k,_ in guards.ret_writes(f)])
+for key in sys.argv[1:]:
+    f=P.fns[key]
+    print("==",key)
+    cx=terms.TermCx(P,f)
+    seen=set()
+    for e,fact in guards.branch_facts(P,f,cx):
+        def ff(x):
+            return terms.fmt(x)[:230] if isinstance(x,tuple) else x
+        if fact[0]=='variant':
+            k=(e[0],e[1],e[2])
+            if k in seen: continue
+            seen.add(k)
+        print(e, fact[0], [ff(x) for x in fact[1:]])
+    print('ret', [(b,k) for b,k,_ in guards.ret_writes(f)])
